@@ -210,6 +210,75 @@ def oracle_tele(case, ctx):
     ctx.ev.case(case, nt=bool(partners), classes=cl, key=[sd, a])
 
 
+# ------------------------------------------------------------------ user-defined subclasses of Floor / Telepod (extension through subclassing)
+
+from gym_gridverse import grid_object as _go  # noqa: E402
+
+_N = [0]
+
+
+def strat_custom(tier):
+    return st.fixed_dictionaries({'obst': strat_obst(tier), 'tele': strat_tele(tier), 'swap_names': st.booleans()})
+
+
+def oracle_custom(case, ctx):
+    """a subclass of Floor *is* floor and a subclass of Telepod *is* a telepod, whenever the class was defined and whatever it is called"""
+    _N[0] += 1
+    # fresh classes for every case, defined after earlier calls of the transitions in this process; the two share one __name__
+    # with classes of the *other* kind from the previous case (a cache keyed by class name would confuse them)
+    name_a, name_b = ('VerifThingA', 'VerifThingB') if (_N[0] % 2) ^ case['swap_names'] else ('VerifThingB', 'VerifThingA')
+    MyFloor = type(name_a, (_go.Floor,), {})
+    MyPod = type(name_b, (_go.Telepod,), {})
+    fn_obst, fn_tele = REG['move_obstacles'], REG['teleport']
+
+    # obstacles: every other floor cell is an instance of the user-defined floor
+    sd, a = case['obst']['state'], case['obst']['action']
+    allowed = M.obstacle_outcomes(sd['grid'])
+    seen = set()
+    for k in range(24):
+        S = objs.build_state(sd)
+        n = 0
+        for p in M.positions(sd):
+            if M.cell(sd, p) == 'F':
+                n += 1
+                if n % 2:
+                    S.grid[p] = MyFloor()
+        guarded(ctx, 'move_obstacles', fn_obst, S, objs.action(a), rng=make_rng(case['obst']['seed'] * 31 + k))
+        g = [['F' if isinstance(o, _go.Floor) else objs.canon_obj(o) for o in row] for row in S.grid.objects]
+        if json.dumps(g) not in allowed:
+            moved = [(p, M.cell(sd, p), g[p[0]][p[1]]) for p in M.positions(sd) if M.cell(sd, p) != g[p[0]][p[1]]]
+            ctx.fail(f'with user-defined Floor subclasses on the grid an obstacle outcome violates the rules: changes {moved[:6]}', {'kind': 'obstacle_rule', 'custom': True})
+        seen.add(json.dumps(g))
+    obstacles = [p for p in M.positions(sd) if M.cell(sd, p) == 'M']
+    if len(obstacles) == 1:
+        free = [q for q in M.neighbours4(obstacles[0]) if M.in_grid(sd, q) and M.cell(sd, q) == 'F']
+        dests = {tuple(p) for gj in seen for p in [[(y, x) for y, r in enumerate(json.loads(gj)) for x, o in enumerate(r) if o == 'M'][0]]}
+        if free and obstacles[0] in dests:
+            ctx.fail(f'an obstacle with free (user-defined) floor neighbours {free} stayed where it was', {'kind': 'obstacle_rule', 'custom': True})
+    # telepods: every telepod is an instance of the user-defined telepod class
+    td, ta = case['tele']['state'], case['tele']['action']
+    partners = M.telepod_partners(td)
+    dests = set()
+    for k in range(16):
+        S = objs.build_state(td)
+        for p in M.positions(td):
+            if M.obj_type(M.cell(td, p)) == 'Telepod':
+                S.grid[p] = MyPod(objs.color(M.color_of(M.cell(td, p))))
+            elif M.cell(td, p) == 'F':
+                S.grid[p] = MyFloor()     # teleport also meets the user-defined floor class (whose name a telepod class used in the previous case)
+        guarded(ctx, 'teleport', fn_tele, S, objs.action(ta), rng=make_rng(case['tele']['seed'] * 17 + k))
+        dests.add((int(S.agent.position.y), int(S.agent.position.x)))
+    here = tuple(td['agent'][:2])
+    if partners:
+        if dests - set(partners):
+            ctx.fail(f'agent on a user-defined telepod at {here} sent to {sorted(dests - set(partners))}; same-coloured other telepods are {partners}', {'kind': 'teleport_rule', 'custom': True})
+        if len(partners) == 1 and dests != set(partners):
+            ctx.fail(f'agent on a user-defined telepod at {here} with partner {partners} was not teleported', {'kind': 'teleport_rule', 'custom': True})
+    elif dests != {here}:
+        ctx.fail(f'teleport displaced the agent from {here} to {sorted(dests)} although it is not on a paired telepod', {'kind': 'teleport_rule', 'custom': True})
+    ctx.ev.case(case, nt=bool(partners) or bool(obstacles), classes=['custom_floor', 'custom_telepod'] + (['paired'] if partners else []))
+
+
 CHECKS = [
     Check('obstacles', oracle_obst, strategy=strat_obst, examples={'quick': 2500, 'thorough': 6000},
           rule='unwalled grids <= 5x5 with 0-4 obstacles among assorted objects: every outcome must be in the order-agnostic model outcome set; destinations cover every free neighbour',
@@ -217,4 +286,7 @@ CHECKS = [
     Check('telepods', oracle_tele, strategy=strat_tele, examples={'quick': 2500, 'thorough': 6000},
           rule='grids <= 5x5 with 0-5 telepods in 1-3 colours, agent on/off a telepod: destinations == same-coloured other telepods (each possible); otherwise no displacement, no exception',
           required=['partners=1', 'partners=2', 'unpaired', 'off_telepod', 'exhaustive']),
+    Check('custom_subclasses', oracle_custom, strategy=strat_custom, examples={'quick': 300, 'thorough': 1200}, shards={'quick': 2, 'thorough': 8},
+          rule='the obstacle and telepod layouts with user-defined subclasses of Floor and Telepod (fresh classes per case, defined after earlier calls, names re-used across kinds): same rules, 24 / 16 seeds each',
+          required=['custom_floor', 'paired']),
 ]
